@@ -126,7 +126,7 @@ Proof.
   destruct (hostname r) as [h|]; cbn [bind] in H.
   - destruct (is_valid_tld_in tlds e (last_label h)) as [[|]|x] eqn:V; cbn [bind] in H; try discriminate.
     + left. eauto.
-    + right. exists h. split; [reflexivity|]. injection H as H. exact H.
+    + right. exists h. split; [reflexivity|]. destruct h as [|c0 h0]; [discriminate|]. injection H as H. exact H.
   - discriminate.
 Qed.
 
